@@ -624,9 +624,18 @@ pub fn check(scn: &C11Scenario, stats: &mut RunStats) -> Result<Vec<Violation>, 
         // a project generated as healthy fails in the reference run: the generator (or
         // darklua) is wrong about something; counted, and visible in the evidence
         stats.unexpected_reference_errors += 1;
-        if std::env::var_os("VERIF_TRACE").is_some() {
-            crate::outln!("unexpected reference errors (seed {}): {:?}", scn.seed, ref_errors);
-        }
+        // every file of such a project must get its output: an error here means that
+        // darklua cannot process a tree it should (the generator's healthy projects have
+        // been error free over millions of runs of the unchanged tree)
+        violations.push(Violation::new(
+            P,
+            "map",
+            "healthy-project-fails",
+            format!(
+                "a project without any faulty file is reported as failing: {:?}",
+                ref_errors
+            ),
+        ));
     }
     // --- the faulty set F
     let ref_lay = layout(&ref_scn, &ref_entries);
@@ -1122,6 +1131,7 @@ pub fn generate(seed: u64) -> C11Scenario {
         allow_file_input: true,
         allow_bundle: true,
         memory_safe: backend == Backend::Memory,
+        allow_outside: matches!(backend, Backend::SimFs | Backend::Memory),
     };
     let mut project = gen::gen_project(&mut rp, &knobs);
     if minify {
